@@ -1247,4 +1247,331 @@ theorem zip_columns_complete (order : List Name) (hord : order.Nodup) (hpos : 0 
     obtain ⟨st, hst⟩ := takeN_lookSync _ _ _ _ _ hm'
     exact synched_complete_any_consumer order gs hord hpos _ st hst
 
+
+/-! ### reviewer items 6-8: what runs (look-ahead), what the specification conserves, the graph consumer -/
+
+/-- the look-ahead wrapper with an item in hand behaves, for a pull-all consumer, like the inner generator one step behind -/
+theorem pullAll_look_holding {σ : Type} (pull : σ → Step σ) (n : Nat) : ∀ (s : σ) (y : Item),
+    pullAll (lookPull pull) (n + 1) (s, .holding y) = (pullAll pull n s).map (y :: ·) := by
+  induction n with
+  | zero =>
+    intro s y
+    simp only [pullAll, lookPull]
+    cases pull s <;> simp [pullAll]
+  | succ n ih =>
+    intro s y
+    rw [pullAll]
+    simp only [lookPull]
+    cases hp : pull s with
+    | error => simp [pullAll, hp]
+    | done => simp [pullAll, hp, lookPull]
+    | yield z s₂ =>
+      simp only []
+      rw [ih s₂ z]
+      simp [pullAll, hp]
+
+/-- **C12.look_transparent** — for a pull-all consumer the one-item look-ahead of the repair changes nothing, for ANY generator
+and any fuel: same items, same completion, same error (the wrapper only moves errors earlier for consumers that stop early). -/
+theorem look_transparent {σ : Type} (pull : σ → Step σ) (n : Nat) (s : σ) :
+    pullAll (lookPull pull) n (s, .fresh) = pullAll pull n s := by
+  cases n with
+  | zero => rfl
+  | succ n =>
+    rw [pullAll, pullAll]
+    simp only [lookPull]
+    cases hp : pull s with
+    | error => rfl
+    | done => rfl
+    | yield x s₁ =>
+      simp only []
+      cases n with
+      | zero => cases pull s₁ <;> simp [pullAll]
+      | succ m =>
+        cases hp₁ : pull s₁ with
+        | error => simp [pullAll, hp₁]
+        | done => simp [pullAll, hp₁, lookPull]
+        | yield y s₂ =>
+          simp only []
+          rw [pullAll_look_holding pull m s₂ y]
+          simp [pullAll, hp₁]
+
+/-- the driver's wrapped iterators under a pull-all consumer are the unwrapped machines -/
+theorem pullAll_M_lookIter (n : Nat) : ∀ (s : IterSt) (h : Hold),
+    pullAll M.pull n (.lookIter s h) = pullAll (lookPull IterSt.pull) n (s, h) := by
+  induction n with
+  | zero => intro s h; rfl
+  | succ n ih =>
+    intro s h
+    rw [pullAll, pullAll]
+    simp only [M.pull]
+    cases hp : lookPull IterSt.pull (s, h) with
+    | error => rfl
+    | done => rfl
+    | yield x s' => simp only []; rw [ih s'.1 s'.2]
+
+theorem pullAll_M_lookSync (n : Nat) : ∀ (s : SyncSt) (h : Hold),
+    pullAll M.pull n (.lookSync s h) = pullAll (lookPull SyncSt.pull) n (s, h) := by
+  induction n with
+  | zero => intro s h; rfl
+  | succ n ih =>
+    intro s h
+    rw [pullAll, pullAll]
+    simp only [M.pull]
+    cases hp : lookPull SyncSt.pull (s, h) with
+    | error => rfl
+    | done => rfl
+    | yield x s' => simp only []; rw [ih s'.1 s'.2]
+
+/-- **C12.sync_complete_look** — what actually runs (`checked_to_the_end(iter_chromosomes)`, and the driver's `M.lookIter`):
+pull-all evaluation EQUALS the specification, in both directions — compatible data is not rejected, incompatible data raises. -/
+theorem sync_complete_look (order ignored : List Name) (gs : List Group) (fuel : Nat)
+    (hord : order.Nodup) (hf : order.length + 2 ≤ fuel) :
+    pullAll (lookPull IterSt.pull) fuel (IterSt.init order order ignored gs, .fresh) = specSync order ignored gs ∧
+    pullAll M.pull fuel (.lookIter (IterSt.init order order ignored gs) .fresh) = specSync order ignored gs := by
+  have h := (sync_complete order ignored gs fuel hord hf).1
+  exact ⟨by rw [look_transparent, h], by rw [pullAll_M_lookIter, look_transparent, h]⟩
+
+/-- **C12.synched_complete_look** — the same for the look-ahead `SynchedStream` (and the driver's `M.lookSync`). -/
+theorem synched_complete_look (order : List Name) (gs : List Group) (fuel : Nat) (hord : order.Nodup)
+    (hf : order.length + 1 ≤ fuel) :
+    pullAll (lookPull SyncSt.pull) fuel (SyncSt.init order gs, .fresh) = specSync order [] gs ∧
+    pullAll M.pull fuel (.lookSync (SyncSt.init order gs) .fresh) = specSync order [] gs := by
+  have h := synched_complete order gs fuel hord hf
+  exact ⟨by rw [look_transparent, h], by rw [pullAll_M_lookSync, look_transparent, h]⟩
+
+example : [0, 1, 2].Nodup := by decide
+
+/-! ### what the specification conserves, in plain list vocabulary -/
+
+theorem spec'_conserves (ord : List Name) : ∀ (K : List Group) (out : List Item), ord.Nodup → spec' ord K = some out →
+    out.length = ord.length ∧ out.flatten = (K.map (·.items)).flatten := by
+  induction ord with
+  | nil =>
+    intro K out _ h
+    cases K with
+    | nil => simp [spec', compatible] at h; subst h; simp
+    | cons g K => simp [spec', compatible] at h
+  | cons n rest ih =>
+    intro K out hnd h
+    have hn : n ∉ rest := (List.nodup_cons.mp hnd).1
+    have hr : rest.Nodup := (List.nodup_cons.mp hnd).2
+    cases K with
+    | nil =>
+      rw [spec'_cons_ne [] n rest hn (by simp)] at h
+      cases ho : spec' rest [] with
+      | none => rw [ho] at h; simp at h
+      | some o =>
+        rw [ho] at h; simp only [Option.map_some, Option.some.injEq] at h; subst h
+        obtain ⟨h1, h2⟩ := ih [] o hr ho
+        simp [h1, h2]
+    | cons g K' =>
+      by_cases hg : g.name = n
+      · rw [spec'_cons_eq g K' n rest hg hn] at h
+        cases ho : spec' rest K' with
+        | none => rw [ho] at h; simp at h
+        | some o =>
+          rw [ho] at h; simp only [Option.map_some, Option.some.injEq] at h; subst h
+          obtain ⟨h1, h2⟩ := ih K' o hr ho
+          simp [h1, h2]
+      · rw [spec'_cons_ne (g :: K') n rest hn (by intro x hx; simp at hx; rw [← hx]; exact hg)] at h
+        cases ho : spec' rest (g :: K') with
+        | none => rw [ho] at h; simp at h
+        | some o =>
+          rw [ho] at h; simp only [Option.map_some, Option.some.injEq] at h; subst h
+          obtain ⟨h1, h2⟩ := ih (g :: K') o hr ho
+          simp [h1, h2]
+
+theorem mem_itemsOf_iff (K : List Group) (hK : (K.map (·.name)).Nodup) (n : Name) (x : Nat) :
+    x ∈ itemsOf K n ↔ ∃ g ∈ K, g.name = n ∧ x ∈ g.items := by
+  induction K with
+  | nil => simp [itemsOf]
+  | cons g K ih =>
+    have hK' : g.name ∉ K.map (·.name) ∧ (K.map (·.name)).Nodup := by
+      rw [List.map_cons] at hK; exact List.nodup_cons.mp hK
+    by_cases hg : g.name = n
+    · rw [itemsOf_cons_eq g K n hg]
+      constructor
+      · intro hx; exact ⟨g, List.mem_cons_self .., hg, hx⟩
+      · intro ⟨g', hg', hn', hx⟩
+        rcases List.mem_cons.mp hg' with rfl | hm
+        · exact hx
+        · exfalso; apply hK'.1; rw [hg, ← hn']; exact List.mem_map_of_mem hm
+    · rw [itemsOf_cons_ne g K n hg, ih hK'.2]
+      constructor
+      · intro ⟨g', hg', h⟩; exact ⟨g', List.mem_cons_of_mem _ hg', h⟩
+      · intro ⟨g', hg', hn', hx⟩
+        rcases List.mem_cons.mp hg' with rfl | hm
+        · exact absurd hn' hg
+        · exact ⟨g', hm, hn', hx⟩
+
+/-- **C12.specSync_conserves** — what the specification's answer means, in plain list vocabulary: one table per contig of the
+order; concatenated in genome order the tables are exactly the non-ignored groups' entries in data order (nothing lost,
+nothing duplicated); every group name is in the order or ignored; and an entry is in table `i` iff it belongs to a
+non-ignored group named `order[i]` (nothing re-assigned). -/
+theorem specSync_conserves (order ignored : List Name) (gs : List Group) (out : List Item) (hord : order.Nodup)
+    (h : specSync order ignored gs = some out) :
+    out.length = order.length ∧
+    out.flatten = ((gs.filter (fun g => !ignored.contains g.name)).map (·.items)).flatten ∧
+    (∀ g ∈ gs, g.name ∈ order ∨ g.name ∈ ignored) ∧
+    (∀ i (hi : i < order.length) (ho : i < out.length) (x : Nat),
+      x ∈ out[i] ↔ ∃ g ∈ gs, g.name ∉ ignored ∧ g.name = order[i] ∧ x ∈ g.items) := by
+  have hs := h
+  rw [specSync_eq] at hs
+  obtain ⟨h1, h2⟩ := spec'_conserves order (kept ignored gs) out hord hs
+  have hc : compatible ((kept ignored gs).map (·.name)) order = true := by
+    simp only [spec'] at hs
+    by_cases hc : compatible ((kept ignored gs).map (·.name)) order = true
+    · exact hc
+    · simp [hc] at hs
+  have hout : out = order.map (itemsOf (kept ignored gs)) := by
+    simp only [spec', hc, if_true, Option.some.injEq] at hs; exact hs.symm
+  have hK : ((kept ignored gs).map (·.name)).Nodup :=
+    ((compatible_iff_sublist _ _).mp hc).nodup hord
+  refine ⟨h1, h2, ?_, ?_⟩
+  · intro g hg
+    by_cases hi : ignored.contains g.name = true
+    · exact Or.inr (by simpa using hi)
+    · have : g ∈ kept ignored gs := by
+        simp only [kept, List.mem_filter]; exact ⟨hg, by simpa using hi⟩
+      exact Or.inl (compatible_mem _ _ hc g.name (List.mem_map_of_mem this))
+  · intro i hi ho x
+    have : out[i] = itemsOf (kept ignored gs) order[i] := by simp [hout]
+    rw [this, mem_itemsOf_iff _ hK]
+    constructor
+    · intro ⟨g, hg, hn, hx⟩
+      have hg' := List.mem_filter.mp hg
+      exact ⟨g, hg'.1, by simpa using hg'.2, hn, hx⟩
+    · intro ⟨g, hg, hni, hn, hx⟩
+      exact ⟨g, List.mem_filter.mpr ⟨hg, by simpa using hni⟩, hn, hx⟩
+
+example : specSync [0, 1, 2] [7] [⟨1, [3]⟩, ⟨7, [9]⟩, ⟨2, [4]⟩] = some [[], [3], [4]] := by decide
+
+
+/-! ### the computation-graph consumer of a streamed array (`graphColumn`) -/
+
+theorem plain_pull_cons (x : Item) (r : List Item) : (M.plain (x :: r)).pull = .yield x (.plain r) := rfl
+theorem plain_pull_nil : (M.plain []).pull = .done := rfl
+
+theorem graphColumn_eq_pullUpTo (k : Nat) : ∀ (fuel : Nat) (data : M), k + 1 ≤ fuel →
+    graphColumn fuel k data = pullUpTo M.pull k data := by
+  induction k with
+  | zero =>
+    intro fuel data hf
+    obtain ⟨f, rfl⟩ : ∃ f, fuel = f + 1 := ⟨fuel - 1, by omega⟩
+    simp [graphColumn, zipAll, zipRound, plain_pull_nil, pullUpTo]
+  | succ k ih =>
+    intro fuel data hf
+    obtain ⟨f, rfl⟩ : ∃ f, fuel = f + 1 := ⟨fuel - 1, by omega⟩
+    have := ih f
+    simp only [graphColumn] at this ⊢
+    simp only [zipAll, zipRound, plain_pull_cons, List.replicate_succ, pullUpTo]
+    cases hp : data.pull with
+    | error => simp
+    | done => simp
+    | yield x d' =>
+      simp only []
+      rw [← this d' (by omega)]
+      cases zipAll f [M.plain (List.replicate k []), d', M.plain (List.replicate k [])] <;> simp
+
+theorem pullUpTo_M_lookIter (k : Nat) : ∀ (s : IterSt) (h : Hold),
+    pullUpTo M.pull k (.lookIter s h) = pullUpTo (lookPull IterSt.pull) k (s, h) := by
+  induction k with
+  | zero => intro s h; rfl
+  | succ k ih =>
+    intro s h
+    simp only [pullUpTo, M.pull]
+    cases hp : lookPull IterSt.pull (s, h) with
+    | error => rfl
+    | done => rfl
+    | yield x s' => simp only []; rw [ih s'.1 s'.2]
+
+/-- a generator that is exhausted after `k` items gives a consumer that stops after `k` items what a pull-all consumer gets -/
+theorem pullUpTo_eq_pullAll {σ : Type} (pull : σ → Step σ) (j k : Nat) : ∀ (s : σ),
+    (∀ xs s', takeN pull k s = some (xs, s') → pull s' = .done) →
+    pullUpTo pull k s = pullAll pull (k + 1 + j) s := by
+  induction k with
+  | zero =>
+    intro s h
+    have := h [] s rfl
+    simp [pullUpTo, Nat.add_comm 1 j, pullAll, this]
+  | succ k ih =>
+    intro s h
+    have e : k + 1 + 1 + j = (k + 1 + j) + 1 := by omega
+    rw [e]
+    simp only [pullUpTo, pullAll]
+    cases hp : pull s with
+    | error => rfl
+    | done => rfl
+    | yield x s₁ =>
+      simp only []
+      rw [ih s₁ (fun xs s' ht => h (x :: xs) s' (by simp [takeN, hp, ht]))]
+
+
+theorem look_fresh_strong {σ : Type} (pull : σ → Step σ) (n : Nat) (s : σ) (xs : List Item) (st : σ × Hold)
+    (h : takeN (lookPull pull) (n + 1) (s, .fresh) = some (xs, st)) :
+    ∃ s₁, takeN pull (n + 1) s = some (xs, s₁) ∧
+      ((st = (s₁, .last) ∧ pull s₁ = .done) ∨ ∃ z s₂, st = (s₂, .holding z) ∧ pull s₁ = .yield z s₂) := by
+  rw [takeN] at h
+  simp only [lookPull] at h
+  cases hp : pull s with
+  | error => rw [hp] at h; simp at h
+  | done => rw [hp] at h; simp at h
+  | yield x s₁ =>
+    rw [hp] at h
+    simp only [] at h
+    cases hp₁ : pull s₁ with
+    | error => rw [hp₁] at h; simp at h
+    | done =>
+      rw [hp₁] at h
+      simp only [] at h
+      cases n with
+      | zero =>
+        simp only [takeN, Option.map_some, Option.some.injEq, Prod.mk.injEq] at h
+        exact ⟨s₁, by simp [takeN, hp, h.1], Or.inl ⟨h.2.symm, hp₁⟩⟩
+      | succ n => simp [takeN, lookPull] at h
+    | yield y s₂ =>
+      rw [hp₁] at h
+      simp only [] at h
+      cases n with
+      | zero =>
+        simp only [takeN, Option.map_some, Option.some.injEq, Prod.mk.injEq] at h
+        exact ⟨s₁, by simp [takeN, hp, h.1], Or.inr ⟨y, s₂, h.2.symm, hp₁⟩⟩
+      | succ n =>
+        cases hr : takeN (lookPull pull) (n + 1) (s₂, .holding y) with
+        | none => rw [hr] at h; simp at h
+        | some r =>
+          rw [hr] at h
+          simp only [Option.map_some, Option.some.injEq, Prod.mk.injEq] at h
+          obtain ⟨xs', s₃, hx, ht, hfin⟩ := look_holding pull n s₂ y r.1 r.2 (by rw [hr])
+          refine ⟨s₃, ?_, ?_⟩
+          · simp only [takeN, hp, hp₁, ht, Option.map_some, ← h.1, hx]
+          · rw [← h.2]; exact hfin
+
+/-- **C12.graph_column_complete** — the computation-graph consumer the driver runs for `genome_mask` / `track` / `mem_pair`
+(`graphColumn`: name stream first, then the data stream, then the sizes; no pull after the last contig) over the repaired
+`iter_chromosomes` EQUALS the specification: complete, unpadded column for compatible data, an error otherwise. -/
+theorem graph_column_complete (order ignored : List Name) (gs : List Group) (fuel : Nat) (hord : order.Nodup)
+    (hpos : 0 < order.length) (hf : order.length + 1 ≤ fuel) :
+    graphColumn fuel order.length (.lookIter (IterSt.init order order ignored gs) .fresh) = specSync order ignored gs := by
+  rw [graphColumn_eq_pullUpTo _ _ _ hf, pullUpTo_M_lookIter]
+  have hdone : ∀ xs st, takeN (lookPull IterSt.pull) order.length (IterSt.init order order ignored gs, .fresh) = some (xs, st) →
+      lookPull IterSt.pull st = .done := by
+    intro xs st ht
+    obtain ⟨n, hn⟩ : ∃ n, order.length = n + 1 := ⟨order.length - 1, by omega⟩
+    rw [hn] at ht
+    obtain ⟨s₁, ht₁, hfin⟩ := look_fresh_strong IterSt.pull n _ xs st ht
+    have hlen := takeN_order (n + 1) _ s₁ xs ht₁
+    have ho : s₁.order = [] := by
+      have : (IterSt.init order order ignored gs).order.length = n + 1 := by simp [IterSt.init, hn]
+      rw [this] at hlen
+      exact List.length_eq_zero_iff.mp (by omega)
+    rcases hfin with ⟨hst, _⟩ | ⟨z, s₂, _, hy⟩
+    · rw [hst]; rfl
+    · exact absurd hy (pull_not_yield_of_order_nil s₁ ho z s₂)
+  rw [pullUpTo_eq_pullAll (lookPull IterSt.pull) 1 order.length _ hdone]
+  exact (sync_complete_look order ignored gs (order.length + 1 + 1) hord (by omega)).1
+
+example : graphColumn 8 2 (.lookIter (IterSt.init [0, 1] [0, 1] [] [⟨1, [2]⟩]) .fresh) = some [[], [2]] := by decide
+
+
 end C12
